@@ -91,6 +91,7 @@ def stepR (s : St) : List St :=
     [if s.rlDone then { s with r := .dead, exited := true, panic := .closeOfClosed }
      else { s with r := .dead, exited := true, rlDone := true }]
   | .dead => []
+  | .never => []
 
 /-- the closer: driver/netconf/driver.go `Close`, channel/channel.go `Close`,
 transport/transport.go `Close` -/
@@ -186,12 +187,18 @@ def next (s : St) : List St :=
 
 /-! ## start states, reachability, executions -/
 
-/-- "after a successful open": read loop(s) at the loop top, closer not started, an operation / RPC
+/-- "after a successful open" (or: never opened): read loop(s) at the loop top, closer not started, an operation / RPC
 in flight or not, the device quiet with up to two arrivals to come -/
 def isInit (s : St) : Bool :=
-  s.r = .top && s.k = .idle && !s.second && !s.oSecond
-  && (if s.nc then s.o = .absent && s.n = .top && (s.w = .absent || s.w = .start)
-      else (s.o = .absent || s.o = .start) && s.n = .absent && s.w = .absent)
+  s.k = .idle && !s.second && !s.oSecond
+  && (if s.r = .never then
+        -- Close before Open (or after an Open that failed before the read loops were started; an
+        -- Open that failed later has already called `Channel.Close` itself: that is `twice`)
+        s.o = .absent && s.w = .absent && (if s.nc then s.n = .dead else s.n = .absent)
+      else
+        s.r = .top
+        && (if s.nc then s.o = .absent && s.n = .top && (s.w = .absent || s.w = .start)
+            else (s.o = .absent || s.o = .start) && s.n = .absent && s.w = .absent))
   && s.feed = .quiet && s.left = .two
   && !s.closedFlag && !s.doneClosed && !s.exited && !s.rlDone && !s.ncDoneClosed
   && s.closeCalls = 0 && !s.lastErr && s.panic = .none
@@ -204,9 +211,13 @@ def mkInit (nc : Bool) (mode : Mode) (twice hasOp : Bool) (closeErr : Bool := fa
     exited := false, rlDone := false, ncDoneClosed := false, closeCalls := 0, lastErr := false,
     panic := .none }
 
+/-- start state of "Close before Open" -/
+def mkPreOpen (nc : Bool) (mode : Mode) (twice : Bool) (closeErr : Bool := false) : St :=
+  { mkInit nc mode twice false closeErr with r := .never, n := if nc then .dead else .absent }
+
 def inits : List St :=
   allBool.flatMap fun nc => allMode.flatMap fun m => allBool.flatMap fun tw => allBool.flatMap fun op =>
-    allBool.map fun ce => mkInit nc m tw op ce
+    allBool.flatMap fun ce => [mkInit nc m tw op ce, mkPreOpen nc m tw ce]
 
 inductive Reach : St → Prop
   | init (s : St) : isInit s = true → Reach s
@@ -226,14 +237,14 @@ transport's read does not unblock on close -/
 def good (s : St) : Bool :=
   s.panic = .none && s.k = .ret && (!s.twice || s.second) && s.closeCalls = 1
   && (s.o = .absent || s.o = .ret) && (s.w = .absent || s.w = .ret)
-  && (s.n = .absent || s.n = .dead) && (s.mode = .stay || s.r = .dead)
+  && (s.n = .absent || s.n = .dead) && (s.mode = .stay || s.r = .dead || s.r = .never)
 
 /-- shared-variable accesses of the next step of each process -/
 def accR : RPc → List (Var × Acc)
   | .top => [(.done, .sync)] | .pre => [(.implLock, .sync)] | .inRead => [(.implLock, .sync)]
   | .postOk => [(.queue, .sync)] | .postEof => [(.done, .sync)] | .postErr => [(.done, .sync)]
   | .send => [(.errs, .sync), (.done, .sync)] | .parked => [(.errs, .sync), (.done, .sync)]
-  | .woken => [] | .sent => [] | .exit => [(.exitedFlag, .sync), (.readLoopDone, .sync)] | .dead => []
+  | .woken => [] | .never => [] | .sent => [] | .exit => [(.exitedFlag, .sync), (.readLoopDone, .sync)] | .dead => []
 def accK : KPc → List (Var × Acc)
   | .ncDone => [(.ncDone, .sync)]
   | .entry => [(.closedFlag, .sync)] | .signal => [(.done, .sync)] | .select => [(.readLoopDone, .sync)]
